@@ -150,6 +150,10 @@ contract(M + "Step.run", props=P,
                  "forall(lambda r: field_of(r, 'should_skip') == old(field_of(r, 'should_skip')) or "
                  "(G_ctx_scenario is not ABSENT and r == ref_of(G_ctx_scenario) and %s and call_outcome(%s) == 5))" % (CALLED, K0),
              "only-this-steps-hook-flag-changes": "unchanged_except('hook_failed', self)",
+             "own-hook-flag-means-bad-event": "implies(self.hook_failed, G_bad > old(G_bad))",
+             "abort-only-with-a-bad-event": "implies(G_ctx_aborted and not old(G_ctx_aborted), G_bad > old(G_bad))",
+             "hook-failures-grow-only-with-a-bad-event": "implies(runner.hook_failures > old(runner.hook_failures), G_bad > old(G_bad))",
+             "undefined-steps-found-are-bad-events": "implies(len(runner._undefined_steps) > old(len(runner._undefined_steps)), G_bad > old(G_bad))",
              "undefined-list-grows-only-for-an-undefined-step":
                  "len(runner._undefined_steps) == old(len(runner._undefined_steps)) + (0 if %s else 1)" % DEFINED,
              # ---- C01 ------------------------------------------------------------------------------
